@@ -345,8 +345,12 @@ def install_probes(ctx):
             return
         self = a[0]
         k = int.from_bytes(self.k, "big")
-        ok = secp.valid_scalar(k) and len(self.k) == 32 and self.K.sec() == secp.ser(secp.gmul(k))
-        ctx.judge("probe.PrivateKey.__init__", ok, {"k": k}, "k in [1,n-1] and K = k*G", self.K.sec(), cls="probe",
+        try:
+            got = self.K.sec()
+        except Exception as e:  # noqa  (a constructor that returned must have produced a usable key)
+            got = e
+        ok = secp.valid_scalar(k) and len(self.k) == 32 and got == secp.ser(secp.gmul(k))
+        ctx.judge("probe.PrivateKey.__init__", ok, {"k": k, "secret_length": len(self.k)}, "32-byte k in [1,n-1] and K = k*G", got, cls="probe",
                   mech="C09.probe.init")
 
     probes.try_install(ctx, "observe PrivateKey.wif", probes.observe_method, inst, keys.PrivateKey, "wif", on_wif)
